@@ -56,6 +56,7 @@ fn fileset(version: u8, which: u8) -> ArchiveSpec {
                 seed: 100 * which as u32 + i as u32,
                 method: [M_ZLIB, M_NONE, M_BZIP2][i % 3],
                 enc: if i == 1 { Enc::Key } else { Enc::None },
+                locale: 0,
             })
             .collect(),
     }
@@ -79,6 +80,7 @@ fn prev_spec(version: u8) -> ArchiveSpec {
                 seed: 900 + i,
                 method: M_ZLIB,
                 enc: Enc::None,
+                locale: 0,
             })
             .collect(),
     }
